@@ -214,6 +214,28 @@ def mixed_cases(seed):
                     if nm == 'qr_full' and shape[0] == shape[1]:
                         continue
                     cases.append(('%s rank-deficient neighbour %s regular direction %d' % (nm, list(shape), order), f, data, [order]))
+    # logdet: positive determinants reached through DIFFERENT pivot sign patterns (no pivoting / one row exchange with a negative
+    # pivot / two negative pivots)
+    for D in (1, 2, 3):
+        mats = [np.array([[2.0, 1.0], [1.0, 3.0]]), np.array([[1.0, 2.0], [-3.0, 1.0]]), np.array([[-2.0, 1.0], [1.0, -3.0]])]
+        for order in ((0, 1), (1, 0), (0, 2), (1, 2, 0)):
+            P = len(order)
+            data = np.zeros((D, P, 2, 2))
+            for p, k in enumerate(order):
+                data[0, p] = mats[k]
+            data[1:] = np.round(rng.uniform(-1, 1, size=(max(D - 1, 0), P, 2, 2)) * 8) / 8.0
+            cases.append(('logdet pivot sign patterns %s' % (order,), algopy.logdet, data, list(range(P))))
+    # eig (D <= 2): a direction with a complex spectrum next to a real one whose LAPACK order is not ascending
+    for D in (1, 2):
+        rot = np.array([[0.0, 1.0, 0.0], [-1.0, 0.0, 0.0], [0.0, 0.0, 2.0]])
+        tri = np.array([[3.0, 1.0, 0.5], [0.0, 1.0, 2.0], [0.0, 0.0, 2.0]])
+        tri2 = np.array([[1.0, 0.5, 0.0], [0.0, 4.0, 1.0], [0.0, 0.0, 2.5]])
+        for pair in ((rot, tri), (tri, rot), (tri2, tri), (tri, tri2)):
+            data = np.zeros((D, 2, 3, 3))
+            data[0, 0], data[0, 1] = pair
+            data[1:] = np.round(rng.uniform(-1, 1, size=(max(D - 1, 0), 2, 3, 3)) * 8) / 8.0
+            judge = [p for p in range(2) if pair[p] is not rot]
+            cases.append(('eig real direction next to %s' % ('a complex one' if any(q is rot for q in pair) else 'another real one'), algopy.eig, data, judge))
     return cases
 
 
